@@ -60,7 +60,26 @@ def overload_shared_keyword(case, v, params):
     return False
 
 
+def default_rest_trailing_too_few(case, v, params):
+    """C07: a declaration (?a, *r, t) - defaulted positional, rest, trailing required positional - is taken to accept a call that
+    passes fewer positionals than its required ones; identified by that declaration shape and the argument count."""
+    p = v.get("probe")
+    if not p or "count" not in (v.get("reason") or ""):
+        return False
+    for d in v.get("decls") or []:
+        pos_args = [a for a in d["args"] if not a["key"]]
+        ridx = next((i for i, a in enumerate(pos_args) if a["rest"]), None)
+        if ridx is None:
+            continue
+        before, after = pos_args[:ridx], pos_args[ridx + 1:]
+        need = len([a for a in before if not a["default"]]) + len(after)
+        if after and any(a["default"] for a in before) and len(p["pos"]) < need:
+            return True
+    return False
+
+
 MATCHERS = {
+    "c07_default_rest_trailing_too_few": default_rest_trailing_too_few,
     "c08_overload_shared_keyword": overload_shared_keyword,
     "c07_too_many_untyped_return": too_many_with_untyped_return,
     "c07_object_class_by_ttype": object_class_by_ttype,
